@@ -740,9 +740,15 @@ def status_never_aborts(ctx, rule):
 
 
 def run(ctx):
+    ctx.rule('R03.13', 'name binding: every global name a function refers to is bound at module level or builtin, and every local is assigned on every path before it is read', floor=6)
+    ctx.rule('R03.12', 'every exactly resolved call binds against its callee\'s signature (no missing/unknown/surplus argument on any arm)', floor=4)
     ctx.rule('R03.11', 'the exit status of the external text-merge tool never aborts the merge: no raise/assert reachable for a status in 0..127', floor=4)
     ctx.rule('R03.10', 'a base container is indexed with a diff/decision key only where the key is known to exist in base '
              '(bound test, patch/remove chunk, or schema-required field)', floor=5)
     _run_base(ctx)
     base_lookups_by_diff_key(ctx, 'R03.10')
     status_never_aborts(ctx, 'R03.11')
+    from ..signatures import call_compat
+    call_compat(ctx, 'R03.12', ['nbdime.merging.', 'nbdime.prettyprint'], 'the merge aborts with an internal error for the inputs that reach this arm')
+    from ..names import name_binding
+    name_binding(ctx, 'R03.13', ['nbdime.merging.', 'nbdime.prettyprint'])
